@@ -48,9 +48,19 @@ class RecoveryMonitor(Ext):
         if getattr(p, 'journal_op', None) == 'cut' and getattr(p, 'journal_cut_from', None) is not None:
             # killed inside a conflict truncation: the entries being cut are (legitimately) on their way out
             vouched = [v for v in vouched if v[0] < p.journal_cut_from]
+        owed = self.pending.pop(p, None)
+        if owed is not None:
+            # killed again before its recovery was judged (inside its first tick): what the previous incarnation had vouched
+            # for is still owed - the journal of this one may be in the middle of being rewritten
+            have = set(v[0] for v in vouched)
+            cut = p.journal_cut_from if getattr(p, 'journal_op', None) == 'cut' and getattr(p, 'journal_cut_from', None) is not None else None
+            vouched = sorted(set(vouched) | set(v for v in owed['vouched'] if v[0] not in have and (cut is None or v[0] < cut)))
+            self.mon.sit['killed_again_before_recovery_was_judged'] += 1
         self.dead_info[p.key] = {
             'vouched': vouched, 'first': j.first_idx(), 'last': j.last_idx(), 'applied': p.last_applied,
-            'journal_op': getattr(p, 'journal_op', None), 'kill_point': getattr(p, 'killed_at', None),
+            # (the earliest interrupted journal operation is the one that explains a loss)
+            'journal_op': (owed or {}).get('journal_op') or getattr(p, 'journal_op', None),
+            'kill_point': (owed or {}).get('kill_point') or getattr(p, 'killed_at', None),
             'has_dump': bool(p.conf.fullDumpFile),
         }
         self.mon.sit['kill_' + ('inside_' + str(p.journal_op) if p.journal_op else 'between_journal_ops')] += 1
@@ -176,7 +186,10 @@ class SnapshotMonitor(Ext):
 
     def after_step(self, p, action):
         if p.conf.fullDumpFile:
-            self.check_dump_file(p, 'after step')
+            v = getattr(p, 'dump_version', 1)
+            if v != getattr(p, '_dump_checked', 0) or getattr(p, 'dump_written_in_place', False):
+                p._dump_checked = v
+                self.check_dump_file(p, 'after step')
 
     def on_kill(self, p):
         pass
